@@ -172,6 +172,52 @@ fn changes_key(c: &[Change<&SymTxt>]) -> Vec<(ChangeTag, Option<usize>, Option<u
     c.iter().map(|x| (x.tag(), x.old_index(), x.new_index(), x.value().ptr_range())).collect()
 }
 
+/// The sequence an iterator yields must not depend on how it is driven: after `a` items taken
+/// with next(), nth(b) is item a+b of the reference and the iteration continues behind it;
+/// size_hint brackets, count() equals and last() is the end of what is left; step_by(2) / skip
+/// see the same items.
+fn check_driven<I: Iterator, K: PartialEq + std::fmt::Debug>(mk: &dyn Fn() -> I, key: &dyn Fn(I::Item) -> K, reference: &[K], what: &str) {
+    let len = reference.len();
+    for a in 0..=len.min(4) {
+        for b in 0..=4usize {
+            let mut it = mk();
+            for k in 0..a {
+                let g = it.next().map(key);
+                claim!(g.as_ref() == reference.get(k), "{}: next() #{} gives {:?}, expected {:?}", what, k, g, reference.get(k));
+            }
+            let (lo, hi) = it.size_hint();
+            claim!(lo <= len - a && hi.map_or(true, |h| len - a <= h), "{}: size_hint {:?} after {} of {} items", what, (lo, hi), a, len);
+            let g = it.nth(b).map(key);
+            claim!(g.as_ref() == reference.get(a + b), "{}: nth({}) after {} items gives {:?}, expected {:?}", what, b, a, g, reference.get(a + b));
+            if a + b < len {
+                let g = it.next().map(key);
+                claim!(g.as_ref() == reference.get(a + b + 1), "{}: the item after nth({}) (after {} items) is {:?}, expected {:?}", what, b, a, g, reference.get(a + b + 1));
+            }
+        }
+        let mut it = mk();
+        for _ in 0..a {
+            it.next();
+        }
+        let c = it.count();
+        claim!(c == len - a, "{}: count() after {} items is {}, expected {}", what, a, c, len - a);
+        let mut it = mk();
+        for _ in 0..a {
+            it.next();
+        }
+        let l = it.last().map(key);
+        claim!(l.as_ref() == if a < len { reference.last() } else { None }, "{}: last() after {} items is {:?}", what, a, l);
+    }
+    let stepped: Vec<K> = mk().step_by(2).map(key).collect();
+    let want: Vec<&K> = reference.iter().step_by(2).collect();
+    claim!(stepped.iter().collect::<Vec<_>>() == want, "{}: step_by(2) gives {:?}, expected {:?}", what, stepped, want);
+    let mut it = mk();
+    let first = it.next().map(key);
+    claim!(first.as_ref() == reference.first(), "{}: first item", what);
+    let rest: Vec<K> = it.by_ref().skip(1).step_by(2).map(key).collect();
+    let want: Vec<&K> = reference.iter().skip(2).step_by(2).collect();
+    claim!(rest.iter().collect::<Vec<_>>() == want, "{}: next(); skip(1).step_by(2) gives {:?}, expected {:?}", what, rest, want);
+}
+
 /// C17's walk over remapped slices.
 fn check_slices(slices: &[(ChangeTag, &SymTxt)], old: &[Sym], new: &[Sym], what: &str) {
     let (ob, nb) = (old.as_ptr() as usize, new.as_ptr() as usize);
@@ -238,6 +284,7 @@ impl Text {
                 let per_op = changes_key(&ops.iter().flat_map(|op| diff.iter_changes(op)).collect::<Vec<_>>());
                 let direct = changes_key(&ops.iter().flat_map(|op| op.iter_changes(&olds[..], &news[..])).collect::<Vec<_>>());
                 claim!(all == per_op, "iter_all_changes differs from the concatenation of TextDiff::iter_changes per op");
+                check_driven(&|| diff.iter_all_changes(), &|c: Change<&SymTxt>| (c.tag(), c.old_index(), c.new_index(), c.value().ptr_range()), &all, "iter_all_changes driven by next/nth/step_by");
                 claim!(all == direct, "iter_all_changes differs from the concatenation of DiffOp::iter_changes per op");
                 // per-op expansion against the statement
                 for op in &ops {
@@ -251,12 +298,18 @@ impl Text {
                             .chain(n.clone().map(|j| (ChangeTag::Insert, None, Some(j), news[j].ptr_range()))).collect(),
                     };
                     claim!(changes_key(&ch) == expect, "expansion of {:?} is not the stated sequence of changes", op);
+                    let ck = |c: Change<&SymTxt>| (c.tag(), c.old_index(), c.new_index(), c.value().ptr_range());
+                    check_driven(&|| diff.iter_changes(op), &ck, &expect, "TextDiff::iter_changes(op) driven by next/nth/step_by");
+                    check_driven(&|| op.iter_changes(&olds[..], &news[..]), &ck, &expect, "DiffOp::iter_changes driven by next/nth/step_by");
                     // slice-wise expansion: same items as one slice (two for Replace)
                     let sl: Vec<(ChangeTag, &[&SymTxt])> = op.iter_slices(&olds[..], &news[..]).collect();
                     let flat: Vec<(ChangeTag, (usize, usize))> = sl.iter().flat_map(|(t, xs)| xs.iter().map(move |x| (*t, x.ptr_range()))).collect();
                     let from_changes: Vec<(ChangeTag, (usize, usize))> = expect.iter().map(|e| (e.0, e.3)).collect();
                     claim!(flat == from_changes, "iter_slices of {:?} does not yield the same items as iter_changes", op);
                     claim!(sl.len() == if tag == DiffTag::Replace { 2 } else { 1 }, "iter_slices of {:?} yields {} slices", op, sl.len());
+                    let sk = |x: (ChangeTag, &[&SymTxt])| (x.0, x.1.as_ptr() as usize, x.1.len());
+                    let sref: Vec<(ChangeTag, usize, usize)> = sl.iter().map(|x| sk(*x)).collect();
+                    check_driven(&|| op.iter_slices(&olds[..], &news[..]), &sk, &sref, "DiffOp::iter_slices driven by next/nth/step_by");
                 }
                 // hunks with a radius that keeps everything: their changes concatenate to all changes
                 let ud = {
@@ -268,6 +321,10 @@ impl Text {
                 let from_hunks: Vec<_> = hunks.iter().flat_map(|h| changes_key(&h.iter_changes().collect::<Vec<_>>())).collect();
                 if ops.iter().any(|o| o.tag() != DiffTag::Equal) {
                     claim!(from_hunks == all, "UnifiedDiffHunk::iter_changes over all hunks (radius 1000) differs from iter_all_changes");
+                    for h in &hunks {
+                        let href = changes_key(&h.iter_changes().collect::<Vec<_>>());
+                        check_driven(&|| h.iter_changes(), &|c: Change<&SymTxt>| (c.tag(), c.old_index(), c.new_index(), c.value().ptr_range()), &href, "UnifiedDiffHunk::iter_changes driven by next/nth/step_by");
+                    }
                 } else {
                     claim!(from_hunks.is_empty(), "hunks without changes");
                 }
@@ -522,11 +579,11 @@ impl Prop for Text {
             Which::C04 => vec![
                 "similar::TextDiffConfig::{diff_lines, diff_words, diff_chars, diff_unicode_words, diff_graphemes, diff} on SymTxt",
                 "similar::TextDiff::{iter_all_changes, iter_changes, ops, old_slices, new_slices}",
-                "similar::iter::{AllChangesIter, ChangesIter}::next",
+                "similar::iter::{AllChangesIter, ChangesIter}::{next, and whatever of nth / size_hint / count / last / step_by they override}",
                 "capture_diff_deadline -> Compact/Replace/Capture + algorithms",
             ],
             Which::C13 => vec![
-                "similar::iter::{AllChangesIter, ChangesIter}::next",
+                "similar::iter::{AllChangesIter, ChangesIter}::{next, and whatever of nth / size_hint / count / last / step_by they override}",
                 "similar::DiffOp::{iter_changes, iter_slices, apply_to_hook, as_tag_tuple}",
                 "similar::TextDiff::{iter_changes, iter_all_changes}",
                 "similar::udiff::{UnifiedDiff::iter_hunks, UnifiedDiffHunk::iter_changes}",
@@ -547,7 +604,7 @@ impl Prop for Text {
         };
         Meta {
             functions,
-            bounds: format!("texts = every pattern of length <= {} over {{ordinary char, space, LF, CR, punctuation}} (thorough: also every pattern of length 4 over {{ordinary char, LF, space}} for the line / word / char tokenizers) plus {} longer patterns (up to 8 characters / 5 tokens, some with two-unit characters), all ordered pairs, x 5 tokenizers x 3 algorithms; ordinary characters are symbolic (unbounded alphabet), classes are concrete; the element type is SymTxt, so the generic text layer runs symbolically", match tier { Tier::Quick => 2, Tier::Thorough => 3 }, EXTRA.len()),
+            bounds: format!("texts = every pattern of length <= {} over {{ordinary char, space, LF, CR, punctuation}} (thorough: also every pattern of length 4 over {{ordinary char, LF, space}} for the line / word / char tokenizers) plus {} longer patterns (up to 8 characters / 5 tokens, some with two-unit characters), all ordered pairs, x 5 tokenizers x 3 algorithms; ordinary characters are symbolic (unbounded alphabet), classes are concrete; the element type is SymTxt, so the generic text layer runs symbolically{}", match tier { Tier::Quick => 2, Tier::Thorough => 3 }, EXTRA.len(), if self.0 == Which::C13 { "; every iterator (iter_all_changes, TextDiff::iter_changes, DiffOp::iter_changes, DiffOp::iter_slices, UnifiedDiffHunk::iter_changes) is also driven by next() x a then nth(b) (a, b in 0..=4), count(), last(), size_hint(), step_by(2) and skip(1) and must show the same items" } else { "" }),
             outside: "the tokenizers of str and [u8] themselves (decided by Kani in C06; unicode words / graphemes of the real types are not decided); longer texts; the >100-token path of TextDiffConfig::diff is covered separately (C14 skeleton family)".into(),
             assumptions: vec![
                 "SymTxt's own tokenizers partition the text (checked on every path) and follow the documented shapes; they stand in for the str/[u8] tokenizers, which the generic layer only calls through the DiffableStr trait".into(),
@@ -773,6 +830,9 @@ impl Prop for TextBig {
     fn run(&self, s: &BigShape) -> String {
         reset_hooks();
         symtxt::reset();
+        // replays keep the class-based hash of the symbolic tokens (lawful: equal tokens share a
+        // class; coarser than Eq): a result that treats equal hashes as equal tokens reproduces
+        engine::keep_constant_hash_in_replay();
         if s.skel >= 1000 {
             return self.run_disjoint(s);
         }
@@ -924,7 +984,7 @@ impl Prop for TextBig {
             ],
             bounds: format!("token counts on both sides of the threshold: a shared skeleton of 99 / 100 / 101 / 103 pairwise-different tokens plus up to 2 extra tokens at the front / middle / end of either side ({}), each extra either a fresh symbolic token or a copy of the first / middle / last skeleton token; plus two inputs of 130 tokens a side with more than 255 different tokens in total; plus tails of up to three tokens over (copy of the first skeleton token, one shared fresh token) appended to both sides; char tokens and line tokens; 3 algorithms (LCS and line tokens: at most one extra)", match tier { Tier::Quick => "a third of the two-extra combinations", Tier::Thorough => "all two-extra combinations" }),
             outside: "fresh extra tokens are assumed different from every skeleton token (coinciding is covered only by the explicit 'copy' kinds); unstructured inputs above the threshold (path explosion); other tokenizers above the threshold (the code path does not depend on the tokenizer)".into(),
-            assumptions: vec!["class-based Hash for this family (skeleton token i -> i, fresh tokens -> one class), lawful under the stated assumption".into()],
+            assumptions: vec!["class-based Hash for this family (skeleton token i -> i, fresh tokens -> one class), lawful under the stated assumption; native re-executions keep this hash (an item type whose Hash is coarser than its Eq)".into()],
             required_witnesses: vec!["paths_above_the_threshold", "paths_at_or_below_the_threshold", "paths_with_changes", "paths_with_more_than_255_different_tokens"],
             rule: "one state = one explored path for one skeleton shape".into(),
         }
